@@ -78,6 +78,25 @@ def gen_world(t):
     spec = worlds.gen_syn(t, allow_m=t.chance(1, 2), max_pts=80, max_structs=4, max_vars=3,
                           pools=["normalised"], hostile=t.chance(1, 2))
     worlds.normalise(t, spec)
+    if t.chance(1, 6):
+        # declared iso-8859-1; bytes 0x80-0x9f there are the control characters U+0080-U+009F (U+0085 left out: a line end)
+        spec["encoding"] = "iso-8859-1"
+        c1 = [chr(c) for c in (0x80, 0x91, 0x92, 0x93, 0x94, 0x96, 0x9f, 0x81, 0x8d, 0x90)]
+        for var, groups in list(spec["vars"].items()):
+            used = set()
+            for g in groups:
+                new = []
+                for v in g[1]:
+                    if var[0] != "C":
+                        v = "".join(ch if ord(ch) < 256 and ch != "\x85" else "x" for ch in v)
+                        if var[0] in "OD" and t.chance(1, 3):
+                            v = v[:-1] + t.choice(c1)
+                    if v not in used:           # (a value occurs once per variable)
+                        used.add(v)
+                        new.append(v)
+                g[1][:] = new
+            spec["vars"][var] = [g for g in groups if g[1]]
+        worlds.normalise(t, spec)
     return spec
 
 
